@@ -11,9 +11,19 @@ from cosim_data import Run, strip_ts
 def gen_scenario(R):
     n = R.choice([1, 2, 3, 5, 8, 12])
     reqs = []
+    # half of the connections carry the requests of one or two users / sessions (as real connections do: a session's NNS, NNT, GIS,
+    # NSC follow each other): anything the library keys by user or session id meets repeated keys, pipelined
+    shared = None
+    if R.random() < 0.5:
+        shared = {"user": [gen_request("NUS", R)[0][0] for _ in range(R.choice([1, 2]))],
+                  "session": [gen_request("NSC", R)[0][0] for _ in range(R.choice([1, 1, 2]))]}
     for i in range(n):
-        m = R.choice(ari.META_POST_INIT)
+        m = R.choice(ari.META_POST_INIT if shared is None or R.random() < 0.5 else ["NNS", "NSC", "NNS", "NSC", "NNT", "NTC", "GIS", "NUM"])
         fixed, tail = gen_request(m, R)
+        if shared is not None:
+            for j, (name, ty) in enumerate(ari.LAYOUT[m][0]):
+                if ty == "S" and (name == "user" or (name or "").lower().startswith("session") or (m == "NSC" and j == 0)):
+                    fixed[j] = R.choice(shared["user" if name == "user" else "session"])
         if m in ("GIT", "GUI") and tail and len(tail) > 2:
             tail = tail[:2]
         toks = ari.encode_args(m, fixed, tail)
@@ -89,6 +99,8 @@ def run_real(scn, choose):
         sched.fine = _random.Random(scn["fine_seed"])
         sched.fine_p = scn.get("fine_p", 0.15)
         sched.fine_focus = set(scn.get("fine_focus") or []) or None
+        if scn.get("fine_files"):
+            sched.fine_files = tuple(sorted(set(sched.fine_files) | set(scn["fine_files"])))
         sched.max_chunks = 200000
     sock = shim.Socket()
     saved = shim.install(sched, sock, cpu=8)
